@@ -93,7 +93,10 @@ Step(src, st, U, s) ==
   ELSE IF o = "chg" THEN
      \* the call is evaluated again and its hand-written argument now has another value: a usage error,
      \* nothing is recorded (generic_value.py:_re_eval); on a first evaluation it simply is the value
-     [st |-> st, res |-> IF st.ev THEN "UE" ELSE "-", miss |-> 0, inc |-> 0]
+     \* (only an argument with a hand-written part can change)
+     IF st.ev /\ src.def /\ \E j \in DOMAIN src.e : ~src.e[j].canon
+     THEN [st |-> st, res |-> "UE", miss |-> 0, inc |-> 0]
+     ELSE [st |-> [st EXCEPT !.ev = TRUE], res |-> "-", miss |-> 0, inc |-> 0]
   ELSE IF st.kind # "undecided" /\ st.kind # (IF o \in {"deq", "dle", "dge"} THEN "dict" ELSE o)
        THEN [st |-> [st EXCEPT !.ev = TRUE], res |-> "TE", miss |-> 0, inc |-> 0]
   ELSE IF o \in ScalarOps THEN
